@@ -558,6 +558,14 @@ func init() {
 						rep.violation(json.RawMessage(raw), jsonOf(n0), fmt.Sprint(err), "FromDagJson then ToIPLD is not deep-equal to the decoded text "+string(txt))
 					}
 				}
+				// a text is interpreted in full or rejected: nothing may follow the policy
+				for _, tail := range []string{"]", " []", `,[["==",".a",1]]`, " x", `[["not",["==",".a",1]]]`, "null", " {}", "\n[[\"==\",\".zz\",1]]", "0"} {
+					if pt, err := policy.FromDagJson(string(txt) + tail); err == nil {
+						rep.violation(map[string]any{"text": string(txt) + tail}, "rejected", "accepted as "+pt.String(),
+							"policy.FromDagJson accepts a text with content after the policy and silently drops it")
+						break
+					}
+				}
 			}
 		}
 		return nil
